@@ -105,11 +105,14 @@ fn explore(ctx: &Ctx, p: &Params, alphabet: &[(String, RawOp)], depth: usize, la
                 continue;
             }
             let (mut h, _, _) = replay(&hist);
-            let r = h.apply(op);
-            out.edges += 1;
             let mut next = hist.clone();
             next.push(ai);
             let ops_of = |hh: &[usize]| -> Vec<RawOp> { hh.iter().map(|&i| alphabet[i].1.clone()).collect() };
+            // (under the watchdog: a call that does not return is reported with the op list that reaches it)
+            crate::common::slot_enter(&case_of(p, &ops_of(&next)));
+            let r = h.apply(op);
+            crate::common::slot_leave();
+            out.edges += 1;
             if r.v.is_panic() {
                 let o = Obs { ops: vec![], ..super::c02::obs_of(r.v.clone(), r.out.clone(), r.consumed) };
                 ctx.violation(&case_of(p, &ops_of(&next)), &format!("{}: no operation sequence panics", label), &o, None);
